@@ -158,7 +158,9 @@ impl RotoReport {
                     for hint in &error.hints {
                         let label = Label::new((
                             self.filename(hint.location),
-                            hint.location.start..hint.location.end,
+                            hint.location.character_range(
+                                &self.files[hint.location.file].contents,
+                            ),
                         ))
                         .with_message(&hint.text)
                         .with_color(Color::Yellow);
@@ -182,10 +184,13 @@ impl RotoReport {
                     let file_text = file_cache.fetch(&file).unwrap().text();
 
                     let labels = error.labels.iter().map(|l| {
+                        // A label can be in another file than the error
+                        // itself, so its offsets have to be converted with
+                        // the text of its own file.
                         let s = self.spans.get(l.id);
                         Label::new((
                             self.filename(s),
-                            s.character_range(file_text),
+                            s.character_range(&self.files[s.file].contents),
                         ))
                         .with_message(&l.message)
                         .with_color(match l.level {
